@@ -425,6 +425,7 @@ func (x *gen) directedABA() {
 	}
 	c.exec("unblock")
 	c.exec("flush 6")
+	x.midTruncateQueued()
 }
 
 // directedXferJoint: a leader applies the entry that enters a joint configuration with automatic
@@ -1182,5 +1183,109 @@ func (x *gen) directedSnapFinish() {
 		c.exec(fmt.Sprintf("process %d", a.id))
 		c.exec(fmt.Sprintf("process %d", a.id))
 	}
+	c.exec("flush 8")
+}
+
+// midTruncateQueued (asynchronous storage writes): a follower has handed three entries of an old
+// leader to its append thread in ONE write that has not run yet; a new leader, whose log agrees with
+// the first of them only, overwrites from the second. The queued write, and everything else the
+// earlier Ready handed out, must stay as it was handed out: the unstable log may not write through
+// the array it shares with those slices.
+func (x *gen) midTruncateQueued() {
+	c := x.c
+	a := x.leader()
+	if a == nil || !c.base.Async || len(c.alive()) < 3 {
+		return
+	}
+	c.exec("flush 6")
+	if !a.alive || a.rn == nil || !x.isLeader(a) {
+		return
+	}
+	f := x.others(a.id)[0]
+	var rest []*Node
+	for _, n := range x.others(a.id) {
+		if n != f {
+			rest = append(rest, n)
+		}
+	}
+	// entry k reaches everybody but f
+	x.isolate(f)
+	x.net0()
+	c.exec(fmt.Sprintf("propose %d", a.id))
+	for r := 0; r < 4; r++ {
+		for _, n := range x.others(f.id) {
+			c.exec(fmt.Sprintf("process %d", n.id))
+		}
+		x.deliverAll()
+	}
+	// entries k+1, k+2 exist at a only; f is reconnected to a alone and receives k..k+2 in one append
+	c.exec("unblock")
+	for _, n := range rest {
+		c.exec(fmt.Sprintf("block %d %d", a.id, n.id))
+		c.exec(fmt.Sprintf("block %d %d", f.id, n.id))
+	}
+	x.net0()
+	c.exec(fmt.Sprintf("propose %d", a.id))
+	c.exec(fmt.Sprintf("propose %d", a.id))
+	unst := func() int {
+		if !f.alive || f.rn == nil {
+			return 0
+		}
+		d := f.rn.VerifState()
+		return len(d.UnstableEntries)
+	}
+	for r := 0; r < 8 && unst() < 2 && !c.stopped; r++ {
+		for t := 0; t < a.cfg.HB; t++ {
+			c.exec(fmt.Sprintf("tick %d", a.id))
+		}
+		c.exec(fmt.Sprintf("process %d", a.id))
+		x.deliverAll()
+		if unst() >= 2 {
+			break
+		}
+		// f answers (rejections, heartbeat responses): its writes so far carry no entries
+		c.exec(fmt.Sprintf("sub %d", f.id))
+		for len(f.app.appendQ) > 0 && f.alive && !c.stopped {
+			c.exec(fmt.Sprintf("appendthread %d", f.id))
+		}
+		x.deliverAll()
+	}
+	if unst() < 2 {
+		c.exec("unblock")
+		c.exec("flush 6")
+		return
+	}
+	c.exec(fmt.Sprintf("sub %d", f.id)) // ONE write with all of them, queued and not run
+	// a is cut off; another node wins the next term (it holds k but not k+1, k+2) and reaches f
+	c.exec("unblock")
+	x.isolate(a)
+	for _, n := range rest {
+		c.exec(fmt.Sprintf("block %d %d", f.id, n.id))
+	}
+	x.net0()
+	b := x.electAmong(rest, x.termOf(a), nil)
+	if b == nil && len(rest) == 1 {
+		// two nodes cannot elect without f: let f vote but keep its append thread stalled
+		c.exec("unblock")
+		x.isolate(a)
+		b = x.electAmong(rest, x.termOf(a), nil)
+	}
+	c.exec("unblock")
+	x.isolate(a)
+	if b != nil {
+		for r := 0; r < 4 && !c.stopped; r++ {
+			c.exec(fmt.Sprintf("process %d", b.id))
+			x.deliverAll()
+			c.exec(fmt.Sprintf("sub %d", f.id)) // the overwrite happens here, the first write still queued
+			x.deliverAll()
+			for t := 0; t < b.cfg.HB; t++ {
+				c.exec(fmt.Sprintf("tick %d", b.id))
+			}
+		}
+	}
+	for len(f.app.appendQ) > 0 && f.alive && !c.stopped {
+		c.exec(fmt.Sprintf("appendthread %d", f.id))
+	}
+	c.exec("unblock")
 	c.exec("flush 8")
 }
